@@ -20,6 +20,9 @@ from .scalar import Sym, SymBool, tosym, Q, _qeq, as_bool_term
 from .symarray import SymArray, sarray, Installed, RandomStub, has_sym, _strip
 
 
+_ABSENT = object()
+
+
 class AssumptionFailed(Exception):
     pass
 
@@ -176,7 +179,7 @@ class Gen:
     # ------------------------------------------------------------------ random stubs
     def patch(self, obj, name, value):
         """monkeypatch for the duration of this harness run (both modes)"""
-        self._patched.append((obj, name, getattr(obj, name)))
+        self._patched.append((obj, name, getattr(obj, name, _ABSENT)))
         setattr(obj, name, value)
 
     def random_handler(self, name, fn):
@@ -188,7 +191,10 @@ class Gen:
 
     def unpatch(self):
         for obj, name, v in reversed(self._patched):
-            setattr(obj, name, v)
+            if v is _ABSENT:
+                delattr(obj, name)
+            else:
+                setattr(obj, name, v)
         self._patched = []
 
     # ------------------------------------------------------------------ obligations
